@@ -126,6 +126,7 @@ class RefKFAC:
         c.G = dict(self.G)
         c.snap = dict(self.snap)
         c.n_updates = self.n_updates
+        c.diverged = getattr(self, 'diverged', False)
         return c
 
     # hyper-parameters ---------------------------------------------------
